@@ -145,4 +145,15 @@ def generic_sweeps(ctx: Ctx, stutter: bool = True, skip_stutter_modules: tuple =
             n_state += 1
             ctx.ob(g + "3", "R33 NO-CROSS-CALL-STATE", f, f"no state outlives the call (`{nm}`)", False, why + " - the result then depends on the history of earlier calls, not only on the arguments", node=n)
     ctx.ob(g + "3", "R33 NO-CROSS-CALL-STATE", None, f"no function of the anchor files keeps state from one call to the next (global rebinding, module-level mutation, caching decorator, mutated default)", n_state == 0, "", rel=mods[0].rel, fname="<anchor files>")
+    # R36: a rich-comparison method used directly as a predicate returns NotImplemented (which is truthy) for
+    # operands of another type, where the operator would fall back to the reflected method / identity
+    n_dunder = 0
+    for m in mods:
+        for q in sorted(m.funcs):
+            f = m.funcs[q]
+            for n in f.own_nodes():
+                if isinstance(n, ast.Attribute) and n.attr in ("__eq__", "__ne__", "__lt__", "__le__", "__gt__", "__ge__") and not (isinstance(n.value, ast.Call) and ast.unparse(n.value.func) == "super"):
+                    n_dunder += 1
+                    ctx.ob(g + "4", "R36 NO-DIRECT-RICH-COMPARISON", f, f"`{ast.unparse(n)[:40]}` is not used in place of the comparison operator", False, "the bound method returns NotImplemented - truthy - for an operand of a type it does not handle, so every such value 'matches'; the operator falls back to the reflected method and identity", node=n)
+    ctx.ob(g + "4", "R36 NO-DIRECT-RICH-COMPARISON", None, "no rich-comparison method is called directly in place of its operator", n_dunder == 0, "", rel=mods[0].rel, fname="<anchor files>")
     ctx.count("functions swept (R31/R22)", n_funcs)
